@@ -463,17 +463,7 @@ _FALLBACK = {
 
 
 def _c19_extra():
-    chunks, status = [], {}
-
-    def attempt(name, thunk, render):
-        try:
-            chunks.append(render(thunk()))
-            status[name] = "translated"
-        except Untranslatable as e:
-            status[name] = f"skipped: {e}"
-            chunks.append(None)
-        return status[name] == "translated"
-
+    status = {}
     out = []
     # loglik
     try:
